@@ -248,6 +248,9 @@ struct RunCfg {
     stale_output: bool,
     /// the scratch directory ($TMPDIR) lies on another file system than the destination (if this machine has one)
     tmp_elsewhere: bool,
+    /// 0 = --batch-size/--fd-limit/--threads given explicitly; 1 = none of them given (the tool's own defaults);
+    /// 2 = none given and the process is confined to ONE cpu (taskset), as in a small container
+    defaults: u8,
 }
 
 struct Outcome {
@@ -260,6 +263,19 @@ struct Outcome {
     stderr: String,
     output: Option<Vec<u8>>,
     trace: String,
+}
+
+/// `taskset -c <first cpu this process may use>`, or nothing when taskset is not installed
+fn one_cpu_wrapper() -> Vec<String> {
+    let status = std::fs::read_to_string("/proc/self/status").unwrap_or_default();
+    let cpu = status.lines().find(|l| l.starts_with("Cpus_allowed_list:")).and_then(|l| l.split(':').nth(1)).map(|v| v.trim().split(|c| c == ',' || c == '-').next().unwrap_or("0").to_string()).unwrap_or_else(|| "0".into());
+    for dir in ["/usr/bin", "/bin", "/usr/local/bin"].iter() {
+        let p = Path::new(dir).join("taskset");
+        if p.exists() {
+            return vec![p.to_string_lossy().to_string(), "-c".into(), cpu];
+        }
+    }
+    vec![]
 }
 
 fn run_fst(bin: &Path, dir: &Path, inp: &Input, cfg: &RunCfg, extra_env: &[(String, String)], wrapper: &[String]) -> Outcome {
@@ -297,6 +313,8 @@ fn run_fst(bin: &Path, dir: &Path, inp: &Input, cfg: &RunCfg, extra_env: &[(Stri
         // --force must replace an existing (longer) destination file completely
         std::fs::write(&out, vec![0xABu8; 300_000]).unwrap();
     }
+    let one_cpu: Vec<String> = if cfg.defaults == 2 && wrapper.is_empty() { one_cpu_wrapper() } else { vec![] };
+    let wrapper: &[String] = if one_cpu.is_empty() { wrapper } else { &one_cpu };
     let mut cmd = if wrapper.is_empty() {
         Command::new(bin)
     } else {
@@ -309,7 +327,10 @@ fn run_fst(bin: &Path, dir: &Path, inp: &Input, cfg: &RunCfg, extra_env: &[(Stri
     for f in &files {
         cmd.arg(f);
     }
-    cmd.arg(&out).arg("--force").arg("--batch-size").arg(cfg.batch.to_string()).arg("--fd-limit").arg(cfg.fd.to_string()).arg("--threads").arg(cfg.threads.to_string());
+    cmd.arg(&out).arg("--force");
+    if cfg.defaults == 0 {
+        cmd.arg("--batch-size").arg(cfg.batch.to_string()).arg("--fd-limit").arg(cfg.fd.to_string()).arg("--threads").arg(cfg.threads.to_string());
+    }
     match cfg.mode {
         Mode::Max => {
             cmd.arg("--max");
@@ -735,7 +756,7 @@ pub fn run(ctx: &Ctx) -> i32 {
             return 2;
         }
     };
-    let ins = inputs(ctx);
+    let mut ins = inputs(ctx);
     let scratch = ctx.root.join("target").join("tmp").join(format!("c19-{}", std::process::id()));
     let nruns = ctx.tier.pick(320, 4000);
     // deterministic run list
@@ -754,23 +775,62 @@ pub fn run(ctx: &Ctx) -> i32 {
                     if big && *b < 7 {
                         continue;
                     }
-                    plan.push((ii, RunCfg { batch: *b, fd: fds[(ii + mi + bi) % 3], threads: ths[(ii + bi) % 4], mode: *m, delay_seed: Some(rng.next() % 1_000_000), stale_output: (ii + mi + bi) % 4 == 0, tmp_elsewhere: (ii + mi + bi) % 3 == 1 }));
+                    plan.push((ii, RunCfg { batch: *b, fd: fds[(ii + mi + bi) % 3], threads: ths[(ii + bi) % 4], mode: *m, delay_seed: Some(rng.next() % 1_000_000), stale_output: (ii + mi + bi) % 4 == 0, tmp_elsewhere: (ii + mi + bi) % 3 == 1, defaults: 0 }));
                 }
             }
         }
         // thousands of batches in one phase
         if let Some(ii) = ins.iter().position(|i| i.name.starts_with("forty-thousand-rows")) {
-            plan.push((ii, RunCfg { batch: 1, fd: 15, threads: 4, mode: Mode::Set, delay_seed: None, stale_output: false, tmp_elsewhere: false }));
+            plan.push((ii, RunCfg { batch: 1, fd: 15, threads: 4, mode: Mode::Set, delay_seed: None, stale_output: false, tmp_elsewhere: false, defaults: 0 }));
         }
         if let Some(ii) = ins.iter().position(|i| i.name.starts_with("six-thousand-rows")) {
-            plan.push((ii, RunCfg { batch: 1, fd: 15, threads: 4, mode: Mode::Set, delay_seed: None, stale_output: false, tmp_elsewhere: false }));
-            plan.push((ii, RunCfg { batch: 1, fd: 3, threads: 2, mode: Mode::Sum, delay_seed: None, stale_output: true, tmp_elsewhere: false }));
+            plan.push((ii, RunCfg { batch: 1, fd: 15, threads: 4, mode: Mode::Set, delay_seed: None, stale_output: false, tmp_elsewhere: false, defaults: 0 }));
+            plan.push((ii, RunCfg { batch: 1, fd: 3, threads: 2, mode: Mode::Sum, delay_seed: None, stale_output: true, tmp_elsewhere: false, defaults: 0 }));
+        }
+        // the tool's own defaults (no --batch-size / --fd-limit / --threads), on all cpus and confined to one cpu
+        for (ii, inp) in ins.iter().enumerate() {
+            let rows: usize = inp.files.iter().map(|f| f.len()).sum();
+            if rows > 7000 || ii % 3 == 2 {
+                continue;
+            }
+            for (mi, m) in modes.iter().enumerate() {
+                if (ii + mi) % 2 == 0 {
+                    plan.push((ii, RunCfg { batch: 100_000, fd: 15, threads: 0, mode: *m, delay_seed: None, stale_output: mi == 1, tmp_elsewhere: false, defaults: 1 + ((ii / 3 + mi) % 2) as u8 }));
+                }
+            }
         }
         while plan.len() < nruns {
             let ii = rng.usize(ins.len());
             let big = ins[ii].files.iter().map(|f| f.len()).sum::<usize>() > 1000;
             let b = if big { *rng.pick(&[7usize, 50, 1000, 1_000_000]) } else { *rng.pick(&batches) };
-            plan.push((ii, RunCfg { batch: b, fd: *rng.pick(&fds), threads: *rng.pick(&ths), mode: *rng.pick(&modes), delay_seed: if rng.chance(1, 8) { None } else { Some(rng.next() % 1_000_000) }, stale_output: false, tmp_elsewhere: false }));
+            plan.push((ii, RunCfg { batch: b, fd: *rng.pick(&fds), threads: *rng.pick(&ths), mode: *rng.pick(&modes), delay_seed: if rng.chance(1, 8) { None } else { Some(rng.next() % 1_000_000) }, stale_output: false, tmp_elsewhere: false, defaults: 0 }));
+        }
+    }
+    // the number of batches in one phase around every power of the fan-in (f^k - 1, f^k, f^k + 1, f^k + 2, batch size 1): how many
+    // merge generations are needed is arithmetic on these two numbers
+    {
+        let mut rng = Rng::new(ctx.seed, 0xC19_5);
+        let mut seen = HashSet::new();
+        for &f in [2usize, 3, 4, 5, 7, 10].iter() {
+            let mut p = f;
+            while p <= 1100 {
+                for nb in [p - 1, p, p + 1, p + 2].iter().cloned() {
+                    if nb < 1 || !seen.insert((f, nb)) {
+                        continue;
+                    }
+                    let mut keys = HashSet::new();
+                    let mut rows = vec![];
+                    while rows.len() < nb {
+                        let k = key(&mut rng);
+                        if keys.insert(k.clone()) {
+                            rows.push((k, rng.below(1 << 20)));
+                        }
+                    }
+                    ins.push(Input { name: "batch-count-around-a-power-of-the-fan-in", files: vec![rows], same_path_twice: false, terminators: 0 });
+                    plan.push((ins.len() - 1, RunCfg { batch: 1, fd: f, threads: [1usize, 4][(p + nb) % 2], mode: [Mode::Set, Mode::Sum][(nb / 2) % 2], delay_seed: None, stale_output: false, tmp_elsewhere: false, defaults: 0 }));
+                }
+                p *= f;
+            }
         }
     }
     let nplan = plan.len();
@@ -848,7 +908,7 @@ pub fn run(ctx: &Ctx) -> i32 {
         let ii = 1; // no-repeats-500
         let mut local = HashSet::new();
         for s in 0..ctx.tier.pick(24, 200) {
-            let cfg = RunCfg { batch: 7, fd: 3, threads: 5, mode: Mode::Sum, delay_seed: Some(ctx.seed * 1000 + s), stale_output: false, tmp_elsewhere: false };
+            let cfg = RunCfg { batch: 7, fd: 3, threads: 5, mode: Mode::Sum, delay_seed: Some(ctx.seed * 1000 + s), stale_output: false, tmp_elsewhere: false, defaults: 0 };
             let o = run_fst(&bin, &scratch.join("seeds"), &ins[ii], &cfg, &[], &[]);
             let (tree, _, _, _, _) = merge_tree(&o.trace);
             local.insert(tree);
@@ -869,7 +929,7 @@ pub fn run(ctx: &Ctx) -> i32 {
         let n = ctx.tier.pick(12, 200);
         for r in 0..n {
             let ii = rng.usize(ins.len() - 1);
-            let cfg = RunCfg { batch: *rng.pick(&[1usize, 2, 3, 7]), fd: *rng.pick(&[2usize, 3]), threads: *rng.pick(&[2usize, 5, 16]), mode: *rng.pick(&[Mode::Set, Mode::Sum, Mode::Min]), delay_seed: Some(r as u64), stale_output: false, tmp_elsewhere: false };
+            let cfg = RunCfg { batch: *rng.pick(&[1usize, 2, 3, 7]), fd: *rng.pick(&[2usize, 3]), threads: *rng.pick(&[2usize, 5, 16]), mode: *rng.pick(&[Mode::Set, Mode::Sum, Mode::Min]), delay_seed: Some(r as u64), stale_output: false, tmp_elsewhere: false, defaults: 0 };
             let env = vec![("TSAN_OPTIONS".to_string(), format!("halt_on_error=0 exitcode=0 log_path={}/tsan", logdir.display()))];
             let o = run_fst(&tsan, &dir, &ins[ii], &cfg, &env, &[]);
             ev.count("tsan:runs");
@@ -888,7 +948,7 @@ pub fn run(ctx: &Ctx) -> i32 {
         let mut rng = Rng::new(ctx.seed, 0x3e3c);
         for r in 0..ctx.tier.pick(2, 30) {
             let ii = [0usize, 2, 3, 4, 7][r % 5];
-            let cfg = RunCfg { batch: *rng.pick(&[2usize, 7]), fd: 2, threads: 2, mode: *rng.pick(&[Mode::Set, Mode::Sum, Mode::Max]), delay_seed: None, stale_output: false, tmp_elsewhere: false };
+            let cfg = RunCfg { batch: *rng.pick(&[2usize, 7]), fd: 2, threads: 2, mode: *rng.pick(&[Mode::Set, Mode::Sum, Mode::Max]), delay_seed: None, stale_output: false, tmp_elsewhere: false, defaults: 0 };
             let wrapper: Vec<String> = vec!["valgrind".into(), "--tool=memcheck".into(), "--error-exitcode=0".into(), "-q".into(), format!("--log-file={}/memcheck.%p", logdir.display())];
             let o = run_fst(&bin, &dir, &ins[ii], &cfg, &[], &wrapper);
             ev.count("memcheck:runs");
@@ -916,7 +976,7 @@ pub fn run(ctx: &Ctx) -> i32 {
         ev,
         Spec {
             level: "exploration",
-            rule: "(for inputs without repeated keys every third run is also compared byte for byte with the command line's own `--sorted --force` build of the sorted data, half of them written over an existing longer file) one evaluation = one run of the real `fst set|map` binary (unsorted mode) as a subprocess with seeded 0-2 ms delays injected at channel send/receive and around batch construction (hook H4): exit status 0, output opens and verify()s, keys == distinct input keys, every value == sum/max/min over ALL rows of its key, and for inputs without repeated keys the output bytes equal a sorted library build; the H4 batch trace is parsed into the merge tree (which leaf batches met in which union, per generation) and the worker assignment, and an offline conservation checker runs over it and records anomalies as evidence without judging them (the leaf batches together hold between #distinct keys and #rows rows, every intermediate file produced once and consumed by exactly one union, exactly one unconsumed result); inputs: 19 shapes (CRLF line endings, two CRLF files of 160 KB whose line endings straddle every multiple of 4096 bytes (CR last before / LF last before / CR first after the boundary; solved for the lines of `fst set` and of `fst map`), input files without a final newline, the same path listed twice in a row, no repeats, repeats far apart, adjacent repeats incl. identical rows, three input files, five input files of which three are empty, one row, empty, five keys x 200 rows, all identical rows, sorted, reverse sorted, 3000 (thorough 10^5) rows with 30% repeats) x batch sizes {1,2,3,7,all} x fd-limit {2,3,15} x threads {1,2,5,16} x {set,sum,max,min}, a quarter of the runs overwriting an existing longer destination file (--force): a systematic core (every input x mode x batch size) plus random combinations; one fixed configuration is repeated under 24 (200) delay seeds to count how many distinct merge trees scheduling alone produces; thorough adds ThreadSanitizer-instrumented and valgrind-memcheck runs; non-trivial = every run; distinct_nontrivial counts runs (distinct parameter/seed combinations) plus distinct merge trees",
+            rule: "(for inputs without repeated keys every third run is also compared byte for byte with the command line's own `--sorted --force` build of the sorted data, half of them written over an existing longer file) one evaluation = one run of the real `fst set|map` binary (unsorted mode) as a subprocess with seeded 0-2 ms delays injected at channel send/receive and around batch construction (hook H4): exit status 0, output opens and verify()s, keys == distinct input keys, every value == sum/max/min over ALL rows of its key, and for inputs without repeated keys the output bytes equal a sorted library build; the H4 batch trace is parsed into the merge tree (which leaf batches met in which union, per generation) and the worker assignment, and an offline conservation checker runs over it and records anomalies as evidence without judging them (the leaf batches together hold between #distinct keys and #rows rows, every intermediate file produced once and consumed by exactly one union, exactly one unconsumed result); inputs: 19 shapes (CRLF line endings, two CRLF files of 160 KB whose line endings straddle every multiple of 4096 bytes (CR last before / LF last before / CR first after the boundary; solved for the lines of `fst set` and of `fst map`), input files without a final newline, the same path listed twice in a row, no repeats, repeats far apart, adjacent repeats incl. identical rows, three input files, five input files of which three are empty, one row, empty, five keys x 200 rows, all identical rows, sorted, reverse sorted, 3000 (thorough 10^5) rows with 30% repeats) x batch sizes {1,2,3,7,all} x fd-limit {2,3,15} x threads {1,2,5,16} x {set,sum,max,min}, plus runs with none of the three options given (the tool's defaults), on all cpus and confined to one cpu by taskset, plus batch size 1 with the number of rows at f^k-1, f^k, f^k+1, f^k+2 for fan-ins f in {2,3,4,5,7,10} up to 1100 batches; a quarter of the runs overwriting an existing longer destination file (--force): a systematic core (every input x mode x batch size) plus random combinations; one fixed configuration is repeated under 24 (200) delay seeds to count how many distinct merge trees scheduling alone produces; thorough adds ThreadSanitizer-instrumented and valgrind-memcheck runs; non-trivial = every run; distinct_nontrivial counts runs (distinct parameter/seed combinations) plus distinct merge trees",
             assumptions: vec!["keys are [a-z0-9]{1,12} (no CSV quoting, no empty lines), values < 2^32 so sums cannot overflow; fd-limit 1 is excluded as in the statement".into(), "interleavings are sampled, not enumerated: the evidence reports how many distinct groupings were actually observed".into(), "a subprocess hitting the 120 s watchdog is inconclusive, never a violation; a deadlock is reported only on logical quiescence (every thread in state S and zero CPU ticks consumed over 8 consecutive one-second samples), not on elapsed time".into()],
             floors: {
                 // the merge-tree numbers come from hook H4 in fst-bin/src/merge.rs; a tree whose merge code no longer emits the trace
